@@ -969,6 +969,13 @@ def rt_cases(prop):
             # a run that fails, then the scheduler is emptied and run again: an empty run is a success with no cause
             S('top', [J('a', duration=5)], timeout=1, rerun=True, session=[[['clear', 'top']]]),
             S('top', [S('in', [J('c', critical=True, outcome='raise')]), J('z')], rerun=True, session=[[['clear', 'in']]]),
+            # a query, then a job bypassed, then the first run (the bypassed job has never run)
+            S('top', [J('a'), J('x', duration=0), J('c', duration=4)], [(1, 0), (2, 1)],
+              presession=[['query', 'top'], ['bypass', 'top', 'x']]),
+            S('top', [J('a'), J('x', duration=0), J('c', duration=4), J('d', duration=2)], [(1, 0), (2, 1), (3, 1)],
+              presession=[['query', 'top'], ['bypass', 'top', 'x'], ['query', 'top']], window=2),
+            S('top', [S('in', [J('a'), J('x', duration=0), J('c', duration=4)], [(1, 0), (2, 1)]), J('z')],
+              presession=[['query', 'in'], ['bypass', 'in', 'x']]),
             # a query, then a job bypassed (no sanitize needed), then a run
             S('top', [J('a'), J('x', duration=0), J('c', duration=4)], [(1, 0), (2, 1)], rerun=True,
               session=[[['query', 'top'], ['bypass', 'top', 'x']]]),
@@ -1014,6 +1021,9 @@ def rt_cases(prop):
             if i % 6 == 4:
                 sp['probe_at'] = [r2.choice([0.5, 1, 1.5, 2, 2.5, 3]) for _ in range(r2.randint(1, 2))]   # queries mid-run
             flat = all(m['type'] == 'job' for m in sp['members'])
+            if i % 7 == 2 and prop not in ('C06', 'C10'):
+                # queries and edits on the freshly built tree, before its first run
+                sp['presession'] = RT.gen_session(r2, sp, runs=1)[0]
             if i % 7 == 5 and prop not in ('C06', 'C10', 'C13') and (prop != 'C14' or flat):
                 # a session: the tree is edited (requirements, windows, jobs added or removed, read-only queries)
                 # between two or three runs of the same top scheduler; the last run is judged
